@@ -10,6 +10,22 @@ Stage 2 (kind 'dcelfn' in SPEC, class DcelEmit): the loop-free DCEL primitives o
 translated statement by statement, in state-passing style, against the API of Dcel/Raw.v into Gen/DcelOps.v;
 parameters and result type are derived from the Rust signature.
 
+Constructs of the subset beyond let / if-else / early return / `?` / asserts / vocabulary calls, each with the rule
+that makes the translation exact (see the comments at the implementing method):
+  stage 1 (pure functions, class Emit)
+    * `let Path { f, g: n } = e;`            binds the named fields of the value of e, read once (Emit.let_struct)
+    * `let [n1, .., nk] = [e1, .., ek];`     element-wise binding of an array literal of pure expressions (Emit.let_array)
+    * `[e1, .., ek].map(f)`                  is `[f(e1), .., f(ek)]` for a pure vocabulary function f (Emit.array_items)
+    * `match b { true => x, false => y }`    is `if b { x } else { y }`;  `match r { Ok(p) => x, Err(q) => y }` is the
+                                             Gallina match on `result` (Emit.match)
+    * `Struct { f }` shorthand, `let x: T = e` (the annotation does not change the value), `Self::new` inside
+      `impl PointProjection`, comparisons with swapped operands (`a < b` -> f_lt a b, `b > a` -> f_gt b a = f_lt a b by
+      the definitions of Num/F64.v)
+    * a local binder that would capture a vocabulary (global Gallina) name used in its scope is a hard error
+  stage 2 (DCEL primitives, class DcelEmit)
+    * `let x = &mut dcel.vertices[i];` / `let x = &mut dcel.faces[i];` then `x.out_edge = o` / `x.adjacent_edge = o`
+      (and reads of these fields): the write goes to entry i, i evaluated once at the borrow (exclusive borrow)
+
 usage: rs2v.py <repo-root> <out-dir>      (writes <out-dir>/<Name>.v, only when changed)
 """
 import re, sys, os, struct
@@ -230,7 +246,56 @@ class P:
         k, v = self.next()
         if k != 'id':
             raise TransError("unsupported pattern %r" % v)
+        path = [v]
+        while self.at('::'):
+            self.next()
+            kk, seg = self.next()
+            if kk != 'id':
+                raise TransError("unsupported pattern path segment %r" % seg)
+            path.append(seg)
+        if self.at('{'):
+            # struct pattern  `Path { f, g: name }`  (irrefutable; every field must be named, `..` is outside the subset)
+            self.next()
+            fields = []
+            while not self.at('}'):
+                if self.at('..'):
+                    raise TransError("`..` in a struct pattern is outside the translated subset")
+                kk, fname = self.next()
+                if kk != 'id' or fname in ('ref', 'mut'):
+                    raise TransError("unsupported struct pattern field %r" % fname)
+                if self.opt(':'):
+                    kk, bname = self.next()
+                    if kk != 'id' or bname in ('ref', 'mut'):
+                        raise TransError("unsupported sub-pattern %r in a struct pattern" % bname)
+                else:
+                    bname = fname
+                fields.append((fname, bname))
+                if not self.opt(','):
+                    break
+            self.eat('}')
+            return ('spat', path, fields)
+        if len(path) != 1 or self.at('('):
+            raise TransError("unsupported pattern %s" % '::'.join(path))
         return ('var', v)
+
+    def match_pattern(self):
+        """Patterns of `match` arms: `true`, `false`, `Ok(p)`, `Err(p)` with p one of `()`, `_`, an identifier."""
+        k, v = self.next()
+        if k == 'id' and v in ('true', 'false'):
+            return ('bool', v == 'true')
+        if k == 'id' and v in ('Ok', 'Err'):
+            self.eat('(')
+            if self.opt('('):
+                self.eat(')')
+                sub = ('unit',)
+            else:
+                kk, n = self.next()
+                if kk != 'id' or not re.match(r"^[a-z_][a-z0-9_]*$", n) or n in ('ref', 'mut'):
+                    raise TransError("unsupported sub-pattern %r in a `match` arm" % n)
+                sub = ('wild',) if n == '_' else ('var', n)
+            self.eat(')')
+            return ('ctor', v, sub)
+        raise TransError("`match` pattern %r is outside the translated subset" % v)
 
     def type_(self):
         depth = 0
@@ -269,7 +334,8 @@ class P:
         if self.opt('-'):
             return ('neg', self.unary(nostruct))
         if self.opt('&'):
-            self.opt('mut')
+            if self.opt('mut'):
+                return ('refmut', self.unary(nostruct))      # kept: only `let x = &mut dcel.<vec>[i];` is translated (stage 2)
             return self.unary(nostruct)
         if self.opt('*'):
             return ('deref', self.unary(nostruct))
@@ -365,6 +431,24 @@ class P:
             b = self.block('}')
             self.eat('}')
             return b
+        if v == 'match' and k == 'id':
+            scrut = self.expr(nostruct=True)
+            self.eat('{')
+            arms = []
+            while not self.at('}'):
+                pat = self.match_pattern()
+                if self.at('if'):
+                    raise TransError("`match` guards are outside the translated subset")
+                if self.at('|'):
+                    raise TransError("or-patterns are outside the translated subset")
+                self.eat('=>')
+                body = self.expr()
+                arms.append((pat, body))
+                if not self.opt(',') and not self.at('}'):
+                    if body[0] != 'block':
+                        raise TransError("expected `,` after a `match` arm, found %r" % self.peek()[1])
+            self.eat('}')
+            return ('match', scrut, arms)
         if k == 'id' and v in ('for', 'while', 'loop', 'match', 'unsafe', 'move', 'break', 'continue', 'fn',
                                'struct', 'impl', 'use', 'const', 'static'):
             raise TransError("`%s` is outside the translated subset" % v)
@@ -417,15 +501,55 @@ def f64_bits(lit):
 class Emit:
     """dom: 'float' or 'nat' decides how arithmetic/comparison operators are rendered.
     voc: per-file vocabulary (method names, function names, paths, struct constructors)."""
-    def __init__(self, dom, voc, ret=None):
+    def __init__(self, dom, voc, ret=None, body_ids=()):
         self.dom = dom
         self.voc = voc
         self.ret = ret
+        self.used = []                   # vocabulary (global Gallina) names emitted so far, in emission order
+        self.body_ids = set(body_ids)    # identifiers of the Rust body (fresh temporaries avoid them)
+        self.ntmp = 0
+
+    def g(self, text):
+        """Record the global names of an emitted vocabulary target (capture check in `blk`)."""
+        self.used.extend(re.findall(r"[A-Za-z_][A-Za-z0-9_.']*", text))
+        return text
+
+    def fresh(self):
+        while True:
+            n = "tmp%d_" % self.ntmp
+            self.ntmp += 1
+            if n not in self.body_ids:
+                return n
+
+    def array_items(self, x):
+        """The element expressions of an array-valued expression of the subset, else None.
+           `[e1, .., en]`  and  `[e1, .., en].map(f)` with f a function of the call vocabulary:
+           `array::map` applies f to element i and stores the result at position i; f is a pure function
+           (everything in the vocabulary is), so `[e1, .., en].map(f)` is exactly `[f(e1), .., f(en)]`."""
+        if x[0] == 'array':
+            return list(x[1])
+        if x[0] == 'mcall' and x[2] == 'map':
+            items = self.array_items(x[1])
+            if items is None:
+                raise TransError(".map(..) on something other than an array literal")
+            if len(x[3]) != 1 or x[3][0][0] != 'path':
+                raise TransError(".map(..) takes one function of the vocabulary")
+            fn = x[3][0][1]
+            if '::'.join(fn) not in self.voc['calls']:
+                raise TransError(".map(%s): function not in vocabulary" % '::'.join(fn))
+            return [('call', fn, [it]) for it in items]
+        return None
 
     def e(self, x):
         k = x[0]
+        if k == 'mcall' and x[2] == 'map':
+            return "[%s]" % '; '.join(self.e(a) for a in self.array_items(x))
+        if k == 'refmut':
+            raise TransError("`&mut` borrow in a pure function")
+        if k == 'match':
+            return self.match(x)
         if k == 'float':
-            return "(f_of_bits %d)" % f64_bits(x[1])
+            return "(%s %d)" % (self.g("f_of_bits"), f64_bits(x[1]))
         if k == 'int':
             return x[1] if self.dom == 'nat' else "(%s)%%Z" % x[1]
         if k == 'unit':
@@ -435,31 +559,31 @@ class Emit:
         if k == 'path':
             name = '::'.join(x[1])
             if name in self.voc['paths']:
-                return self.voc['paths'][name]
+                return self.g(self.voc['paths'][name])
             if len(x[1]) == 1 and re.match(r"^[a-z_][a-z0-9_]*$", name):
                 return self.var(name)
             raise TransError("unknown path %s" % name)
         if k == 'not':
-            return "(negb %s)" % self.e(x[1])
+            return "(%s %s)" % (self.g("negb"), self.e(x[1]))
         if k == 'neg':
             if self.dom == 'float':
-                return "(f_neg %s)" % self.e(x[1])
+                return "(%s %s)" % (self.g("f_neg"), self.e(x[1]))
             raise TransError("unary minus in nat domain")
         if k == 'bin':
             op, a, b = x[1], self.e(x[2]), self.e(x[3])
             if op == '&&':
-                return "(andb %s %s)" % (a, b)
+                return "(%s %s %s)" % (self.g("andb"), a, b)
             if op == '||':
-                return "(orb %s %s)" % (a, b)
+                return "(%s %s %s)" % (self.g("orb"), a, b)
             tbl = self.voc['binops_' + self.dom]
             if op not in tbl:
                 raise TransError("operator %s not in the %s vocabulary" % (op, self.dom))
-            return "(%s %s %s)" % (tbl[op], a, b)
+            return "(%s %s %s)" % (self.g(tbl[op]), a, b)
         if k == 'field':
             key = '.' + x[2]
             if key not in self.voc['fields']:
                 raise TransError("unknown field %s" % x[2])
-            return "(%s %s)" % (self.voc['fields'][key], self.e(x[1]))
+            return "(%s %s)" % (self.g(self.voc['fields'][key]), self.e(x[1]))
         if k == 'mcall':
             name = x[2]
             if name not in self.voc['methods']:
@@ -469,24 +593,24 @@ class Emit:
                 if x[3]:
                     raise TransError(".%s with arguments" % name)
                 return self.e(x[1])
-            return "(%s)" % ' '.join([tgt, self.e(x[1])] + [self.e(a) for a in x[3]])
+            return "(%s)" % ' '.join([self.g(tgt), self.e(x[1])] + [self.e(a) for a in x[3]])
         if k == 'call':
             name = '::'.join(x[1])
             if name not in self.voc['calls']:
                 raise TransError("call to %s not in vocabulary" % name)
             tgt = self.voc['calls'][name]
             if not x[2]:
-                return tgt
-            return "(%s)" % ' '.join([tgt] + [self.e(a) for a in x[2]])
+                return self.g(tgt)
+            return "(%s)" % ' '.join([self.g(tgt)] + [self.e(a) for a in x[2]])
         if k == 'struct':
             name = '::'.join(x[1])
-            if name not in self.voc['structs']:
+            if not self.voc['structs'].get(name):
                 raise TransError("struct literal %s not in vocabulary" % name)
             ctor, order = self.voc['structs'][name]
             d = dict(x[2])
-            if sorted(d) != sorted(order):
-                raise TransError("struct %s: fields %s" % (name, sorted(d)))
-            return "(%s)" % ' '.join([ctor] + [self.e(d[f]) for f in order])
+            if len(d) != len(x[2]) or sorted(d) != sorted(order):
+                raise TransError("struct %s: fields %s" % (name, sorted(f for f, _ in x[2])))
+            return "(%s)" % ' '.join([self.g(ctor)] + [self.e(d[f]) for f in order])
         if k == 'if':
             if x[3] is None:
                 raise TransError("`if` without else used as a value")
@@ -504,18 +628,152 @@ class Emit:
     def var(self, n):
         return {'type': 'type_', 'end': 'end_', 'in': 'in_', 'at': 'at_', 'from': 'from_', 'to': 'to_'}.get(n, n)
 
+    def match(self, x):
+        """`match s { arms }` over bool or Result, as an expression (s is evaluated once in both languages).
+           * `match b { true => x, false => y }` (arms in either order) is exactly `if b { x } else { y }`.
+           * `match r { Ok(p) => x, Err(q) => y }` (either order) is the Gallina match on `result`; p, q are `()` / `_`
+             (no binding; `()` is the only value of the unit type, so the pattern is irrefutable) or an identifier
+             (binds the payload in that arm only).  Both constructors must be covered exactly once."""
+        scrut, arms = x[1], x[2]
+        kinds = sorted(set(p[0] for p, _ in arms))
+        if kinds == ['bool']:
+            d = dict((p[1], body) for p, body in arms)
+            if len(arms) != 2 or sorted(d) != [False, True]:
+                raise TransError("`match` on a bool must have exactly the arms `true` and `false`")
+            return "(if %s then %s else %s)" % (self.e(scrut), self.arm(d[True], []), self.arm(d[False], []))
+        if kinds == ['ctor']:
+            d = dict((p[1], (p[2], body)) for p, body in arms)
+            if len(arms) != 2 or sorted(d) != ['Err', 'Ok']:
+                raise TransError("`match` on a Result must have exactly the arms `Ok(..)` and `Err(..)`")
+            parts = []
+            for c in ('Err', 'Ok'):                                # same layout as the translation of `?`
+                sub, body = d[c]
+                if sub[0] == 'var':
+                    parts.append("%s %s => %s" % (c, self.var(sub[1]), self.arm(body, [self.var(sub[1])])))
+                else:
+                    parts.append("%s _ => %s" % (c, self.arm(body, [])))
+            return "(match %s with %s end)" % (self.e(scrut), ' | '.join(parts))
+        raise TransError("`match` arms mix bool and Result patterns")
+
+    def arm(self, body, bound):
+        start = len(self.used)
+        text = self.blk(body) if body[0] == 'block' else self.e(body)
+        self.no_capture(bound, start)
+        return text
+
+    def no_capture(self, names, start):
+        """A local binder must not capture a vocabulary name used in its scope (emitted since `start`)."""
+        scope = set(self.used[start:])
+        for n in names:
+            if n != '_' and n in scope:
+                raise TransError("local variable `%s` would capture the vocabulary name %s" % (n, n))
+
+    def mentions(self, x, name):
+        if isinstance(x, tuple):
+            if len(x) == 2 and x[0] == 'path' and x[1] == [name]:
+                return True
+            return any(self.mentions(y, name) for y in x)
+        if isinstance(x, list):
+            return any(self.mentions(y, name) for y in x)
+        return False
+
+    def let_chain(self, binds, out):
+        for n, t in reversed(binds):
+            out = "(let %s := %s in %s)" % (n, t, out)
+        return out
+
+    def let_struct(self, pat, ex, out, start):
+        """`let Path { f1, f2: n2 } = e;`  binds each named variable to the field of the value of e read at that point:
+           `let f1 := (acc_f1 e) in let n2 := (acc_f2 e) in ..`.  e is evaluated once: it is used directly when it is a
+           variable that none of the new names shadows, otherwise it is first bound to a fresh temporary."""
+        name = '::'.join(pat[1])
+        if not self.voc['structs'].get(name):
+            raise TransError("struct pattern %s not in vocabulary" % name)
+        _, order = self.voc['structs'][name]
+        fields = pat[2]
+        if len(set(f for f, _ in fields)) != len(fields) or sorted(f for f, _ in fields) != sorted(order):
+            raise TransError("struct pattern %s: fields %s" % (name, sorted(f for f, _ in fields)))
+        if ex[0] == 'try':
+            raise TransError("`?` under a struct pattern")
+        names = [self.var(n) for _, n in fields if n != '_']
+        if len(set(names)) != len(names):
+            raise TransError("struct pattern %s binds a name twice" % name)
+        for n in names:
+            if not re.match(r"^[a-z_][a-z0-9_]*$", n):
+                raise TransError("struct pattern binds `%s`" % n)
+        self.no_capture(names, start)
+        src = ex[1] if ex[0] == 'deref' else ex
+        simple = src[0] == 'path' and len(src[1]) == 1 and re.match(r"^[a-z_][a-z0-9_]*$", src[1][0]) \
+            and self.var(src[1][0]) not in names and '::'.join(src[1]) not in self.voc['paths']
+        base = self.var(src[1][0]) if simple else self.fresh()
+        binds = []
+        for f, n in fields:
+            if n == '_':
+                continue
+            key = '.' + f
+            if key not in self.voc['fields']:
+                raise TransError("unknown field %s" % f)
+            acc = self.voc['fields'][key]
+            if acc in [b for b, _ in binds]:
+                raise TransError("local variable `%s` would capture the vocabulary name %s" % (acc, acc))
+            binds.append((self.var(n), "(%s %s)" % (self.g(acc), base)))
+        out = self.let_chain(binds, out)
+        if not simple:
+            out = "(let %s := %s in %s)" % (base, self.e(ex), out)
+        return out
+
+    def let_array(self, pat, ex, out, start):
+        """`let [n1, .., nk] = [e1, .., ek];`  (also with `.map(f)`, see array_items).  Rust evaluates e1 .. ek, then binds.
+           All ei are pure, so when no ej (j > i) mentions ni this is exactly the sequence `let n1 := e1 in .. let nk := ek in`
+           (the form the translator emits for consecutive `let`s); otherwise the values go through fresh temporaries."""
+        items = self.array_items(ex)
+        if items is None:
+            raise TransError("array pattern against something other than an array literal")
+        names = pat[1]
+        if len(items) != len(names):
+            raise TransError("array pattern of %d names against %d elements" % (len(names), len(items)))
+        for n in names:
+            if not re.match(r"^[a-z_][a-z0-9_]*$", n):
+                raise TransError("array pattern element `%s`" % n)
+        real = [self.var(n) for n in names if n != '_']
+        if len(set(real)) != len(real):
+            raise TransError("array pattern binds a name twice")
+        self.no_capture(real, start)
+        seq = all(not self.mentions(items[j], names[i])
+                  for i in range(len(names)) for j in range(i + 1, len(names)) if names[i] != '_')
+        if seq:
+            binds = [(self.var(n), it) for n, it in zip(names, items) if n != '_']
+            # the right-hand sides are emitted last-to-first, like `blk` does, so that the capture check of an
+            # earlier binder sees the vocabulary names of the later right-hand sides (they are in its scope)
+            for n, it in reversed(binds):
+                self.no_capture([n], start)
+                out = "(let %s := %s in %s)" % (n, self.e(it), out)
+            return out
+        tmps = [self.fresh() for _ in names]
+        out = self.let_chain([(self.var(n), t) for n, t in zip(names, tmps) if n != '_'], out)
+        for t, it in reversed(list(zip(tmps, items))):
+            out = "(let %s := %s in %s)" % (t, self.e(it), out)
+        return out
+
     def blk(self, b):
         assert b[0] == 'block'
         stmts, fin = b[1], b[2]
         if fin is None:
             raise TransError("block without value")
+        start = len(self.used)           # everything emitted from here on lies in the scope of this block's binders
         out = self.e(fin)
         for st in reversed(stmts):
             if st[0] == 'let':
                 pat, ex = st[1], st[2]
-                if ex[0] == 'try':
+                if pat[0] == 'spat':
+                    out = self.let_struct(pat, ex, out, start)
+                elif pat[0] == 'arr':
+                    out = self.let_array(pat, ex, out, start)
+                elif ex[0] == 'try':
+                    self.no_capture(self.pat_names(pat), start)
                     out = "(match %s with Err e_ => Err e_ | Ok %s => %s end)" % (self.e(ex[1]), self.pat(pat), out)
                 else:
+                    self.no_capture(self.pat_names(pat), start)
                     out = "(let %s := %s in %s)" % (self.pat(pat), self.e(ex), out)
             elif st[0] == 'expr':
                 ex = st[1]
@@ -528,10 +786,17 @@ class Emit:
                 else:
                     raise TransError("expression statement without effect in the subset")
             elif st[0] == 'assert':
-                out = "(if %s then %s else %s)" % (self.e(st[1]), out, self.voc['panic'])
+                out = "(if %s then %s else %s)" % (self.e(st[1]), out, self.g(self.voc['panic']))
             else:
                 raise TransError("statement kind `%s` is outside the pure subset" % st[0])
         return out
+
+    def pat_names(self, p):
+        if p[0] == 'var':
+            return [self.var(p[1])]
+        if p[0] == 'tup':
+            return [self.var(n) for n in p[1]]
+        return []
 
     def pat(self, p):
         if p[0] == 'var':
@@ -587,6 +852,8 @@ D_CALLS = {                                                     # path -> (argum
     'DE::default': ([], 'tt', 'default'), 'UE::default': ([], 'tt', 'default'),
     'F::default': ([], 'tt', 'default'), 'Default::default': ([], 'tt', 'default'),
 }
+D_VEC_FIELDS = {('vertices', 'out_edge'): ('v_out_edge', 'set_out_edge'),        # (vec, field) -> (read, write) of Raw.v
+                ('faces', 'adjacent_edge'): ('f_adjacent', 'set_adjacent_edge')}
 D_NAT_CMP = {'<': 'Nat.ltb %s %s', '<=': 'Nat.leb %s %s', '>': 'Nat.ltb %(b)s %(a)s', '>=': 'Nat.leb %(b)s %(a)s'}
 D_RESERVED = set("""dcel dcel0 prim_panic half_edge e_next e_prev e_face e_origin e_rev e_to normalized not_normalized
   as_undirected v_out_edge f_adjacent set_half_edge set_next set_prev set_face set_origin set_out_edge
@@ -753,6 +1020,8 @@ class DcelEmit:
     def bindpat(self, pat, ty, env):
         if pat[0] == 'var':
             return self.bind(pat[1], ty, env)
+        if pat[0] not in ('tup', 'arr'):
+            raise TransError("pattern kind `%s` is outside the DCEL subset" % pat[0])
         names = pat[1]                                # 'tup' and 'arr' patterns: both are pairs
         if not (isinstance(ty, tuple) and ty[0] == 'tup' and len(ty[1]) == len(names)):
             raise TransError("pattern (%s) against a value of type %s" % (', '.join(names), d_tystr(ty)))
@@ -852,6 +1121,8 @@ class DcelEmit:
             if name in env:
                 if isinstance(env[name][1], tuple) and env[name][1][0] == 'hmut':      # reading through `let x = dcel.half_edge_mut(h)`
                     return "(half_edge dcel %s)" % env[name][1][1], 'hrec'
+                if isinstance(env[name][1], tuple) and env[name][1][0] == 'vecmut':
+                    raise TransError("the entry reference `%s` is used as a value (only its translated field is in the vocabulary)" % name)
                 return env[name]
             if name in D_PATHS:
                 return D_PATHS[name]
@@ -895,6 +1166,12 @@ class DcelEmit:
                 if (vec, name) == ('vertices', 'out_edge'):
                     return "(v_out_edge dcel %s)" % i, ('opt', 'eh')
                 raise TransError("dcel.%s[..].%s is not in the vocabulary" % (vec, name))
+            al = self.vec_alias(recv, env)
+            if al is not None:                               # x.f  with  x = &mut dcel.<vec>[i]:  reads dcel.<vec>[i].f
+                vec, iv = al
+                if (vec, name) not in D_VEC_FIELDS:
+                    raise TransError("dcel.%s[..].%s is not in the vocabulary" % (vec, name))
+                return "(%s dcel %s)" % (D_VEC_FIELDS[(vec, name)][0], iv), ('opt', 'eh')
             t, ty = self.ex(recv, env)
             if ty == 'hrec' and name in H_FIELDS:
                 return "(%s %s)" % (H_FIELDS[name][0], t), H_FIELDS[name][1]
@@ -959,6 +1236,8 @@ class DcelEmit:
                 raise TransError("array literal of length %d (only pairs)" % len(x[1]))
             parts = [self.ex(a, env) for a in x[1]]
             return "(%s)" % ', '.join(p[0] for p in parts), ('tup', tuple(p[1] for p in parts))
+        if k == 'refmut':
+            raise TransError("`&mut` borrow other than `let x = &mut dcel.vertices[i]` / `let x = &mut dcel.faces[i]`")
         if k == 'if':
             if x[3] is None:
                 raise TransError("`if` without else used as a value")
@@ -969,6 +1248,14 @@ class DcelEmit:
         if k == 'block':
             return self.block(x, env, 'pure', 0)
         raise TransError("expression kind `%s` is outside the DCEL subset" % k)
+
+    def vec_alias(self, x, env):
+        """x is a variable bound by `let x = &mut dcel.<vec>[i];`  ->  (vec, Gallina name of the index), else None."""
+        if x[0] == 'path' and len(x[1]) == 1 and x[1][0] in env:
+            ty = env[x[1][0]][1]
+            if isinstance(ty, tuple) and ty[0] == 'vecmut':
+                return ty[1], ty[2]
+        return None
 
     # ---- statements
     def assign(self, st, env):
@@ -992,6 +1279,12 @@ class DcelEmit:
         if lhs[0] == 'field' and alias(lhs[1]) is not None and lhs[2] in H_FIELDS:   # x.f = v;
             d_unify(rty, H_FIELDS[lhs[2]][1], "assignment to .%s" % lhs[2])
             return "%s dcel %s %s" % (H_FIELDS[lhs[2]][2], alias(lhs[1]), r)
+        if lhs[0] == 'field' and self.vec_alias(lhs[1], env) is not None:      # x.f = o;   (x = &mut dcel.<vec>[i])
+            vec, iv = self.vec_alias(lhs[1], env)
+            if (vec, lhs[2]) not in D_VEC_FIELDS:
+                raise TransError("dcel.%s[..].%s is not in the vocabulary" % (vec, lhs[2]))
+            d_unify(rty, ('opt', 'eh'), "assignment to .%s" % lhs[2])
+            return "%s dcel %s %s" % (D_VEC_FIELDS[(vec, lhs[2])][1], iv, r)
         if lhs[0] == 'field' and lhs[1][0] == 'index' and d_vec_of(lhs[1][1]) is not None:
             vec, f = d_vec_of(lhs[1][1]), lhs[2]
             i = self.typed(lhs[1][2], env, 'nat', "index")
@@ -1071,6 +1364,22 @@ class DcelEmit:
                             raise TransError("variable names %s / %s collide after renaming" % (hv, other))
                     lines.append(pad + "let %s := %s in" % (hv, h))
                     env[pat[1]] = (hv, ('hmut', hv))
+                elif (e[0] == 'refmut' and e[1][0] == 'index' and d_vec_of(e[1][1]) in ('vertices', 'faces')
+                      and pat[0] == 'var'):
+                    # let x = &mut dcel.vertices[i];  /  let x = &mut dcel.faces[i];  -- an exclusive borrow of one table entry:
+                    # `x.out_edge = o` is `dcel.vertices[i].out_edge = o` (resp. `.adjacent_edge` of a face).  The index is
+                    # evaluated once, at the borrow; while x is alive Rust allows no other access to dcel, so no statement
+                    # in between can change what the index denotes and the substitution is exact.
+                    no_pure("a mutable borrow")
+                    i = self.typed(e[1][2], env, 'nat', "index")
+                    if not re.match(r"^[a-z_][a-z0-9_]*$", pat[1]) or pat[1] == 'dcel':
+                        raise TransError("cannot bind the name `%s`" % pat[1])
+                    iv = pat[1] + "_i"
+                    for other, (c, _) in env.items():
+                        if c == iv:
+                            raise TransError("variable names %s / %s collide after renaming" % (iv, other))
+                    lines.append(pad + "let %s := %s in" % (iv, i))
+                    env[pat[1]] = (iv, ('vecmut', d_vec_of(e[1][1]), iv))
                 else:
                     if d_mutates(e):
                         raise TransError("mutation inside the right-hand side of a `let` (%s)" % e[0])
@@ -1190,6 +1499,7 @@ MATH_VOC = {
               'LineSideInfo::from_determinant': 'from_determinant', 'side_query': 'side_query',
               'PointProjection::new': 'mkpp'},
     'structs': {'robust::Coord': ('mkpt', ['x', 'y']), 'LineSideInfo': ('mklsi', ['signed_side']),
+                'Point2': ('mkpt', ['x', 'y']), 'PointProjection': ('mkpp', ['factor', 'length_2']),
                 'Self': None},
 }
 
@@ -1202,7 +1512,8 @@ def voc_with(base, **over):
     return v
 
 LSI_VOC = voc_with(MATH_VOC, structs={'LineSideInfo': ('mklsi', ['signed_side']), 'Self': ('mklsi', ['signed_side'])})
-PP_VOC = voc_with(MATH_VOC, structs={'Self': ('mkpp', ['factor', 'length_2'])})
+# inside `impl PointProjection`: `Self { .. }` is the struct, `Self::new` is `PointProjection::new` (the plain constructor)
+PP_VOC = voc_with(MATH_VOC, structs={'Self': ('mkpp', ['factor', 'length_2'])}, calls={'Self::new': 'mkpp'})
 SIZE_VOC = voc_with(MATH_VOC, methods={
     's': None, 'num_faces': 'num_faces', 'num_undirected_edges': 'num_undirected_edges',
     'num_directed_edges': 'num_directed_edges', 'num_inner_faces': 'num_inner_faces',
@@ -1292,7 +1603,7 @@ def translate(repo, outdir):
                     report.append((path, rname, 'dcelfn'))
                     continue
                 ast = parse_body(body)
-                em = Emit(dom, voc)
+                em = Emit(dom, voc, body_ids=[v for k, v in tokenize(body) if k == 'id'])
                 text = em.blk(ast)
                 out.append("(* %s :: %s *)\nDefinition %s %s : %s :=\n  %s.\n" % (path, rname, cname, params, ret, text))
                 report.append((path, rname, 'fn'))
